@@ -622,3 +622,31 @@ func sourcesWithFactsAt(v ssa.Value, scope []*ssa.Function, base []flow.Fact) []
 	rec(v, nil, 0)
 	return out
 }
+
+type callIdx struct {
+	call *ssa.Call
+	idx  int // which result is known true (-1: the call's single result)
+}
+
+// factCallTrueIdx is factCallTrue with the index of the result that is known true.
+func factCallTrueIdx(b *ssa.BasicBlock) []callIdx {
+	var out []callIdx
+	for _, f := range flow.FactsAt(b) {
+		cond, pol := f.Cond, f.True
+		if u, ok := cond.(*ssa.UnOp); ok && u.Op.String() == "!" {
+			cond, pol = u.X, !pol
+		}
+		if !pol {
+			continue
+		}
+		switch x := cond.(type) {
+		case *ssa.Call:
+			out = append(out, callIdx{x, -1})
+		case *ssa.Extract:
+			if cl, ok := x.Tuple.(*ssa.Call); ok {
+				out = append(out, callIdx{cl, x.Index})
+			}
+		}
+	}
+	return out
+}
